@@ -147,7 +147,7 @@ def work_cycles(lst):
     out = []
     for cyc, root, mk in lst:
         for op, code in CYCLE_OPS:
-            r = common.run_cases([{"id": 0, "steps": [PRE, code.replace("{MK}", mk)]}], batch=1, timeout_ms=3000)[0]
+            r = common.run_cases([{"id": 0, "steps": [PRE, code.replace("{MK}", mk)]}], batch=1, timeout_ms=3000, retry_timeouts=False)[0]
             if r["exit"] != "normal" or len(r["steps"]) < 2:
                 o = "crash:" + str(r["exit"]).split(":")[0] + (":" + str(r["exit"]).split(":")[1] if str(r["exit"]).startswith("signal") else "")
             elif r["steps"][1]["s"] == "ok":
@@ -173,7 +173,7 @@ def work(item):
             out.append((name, d, "skipped-after-smaller-rung-failed", steps))
             continue
         t0 = time.time()
-        r = common.run_cases([{"id": 0, "steps": steps}], env=dict(env or {}, SVH_CHILD_AS_MB="16000"), batch=1, timeout_ms=limit_ms)[0]
+        r = common.run_cases([{"id": 0, "steps": steps}], env=dict(env or {}, SVH_CHILD_AS_MB="16000"), batch=1, timeout_ms=limit_ms, retry_timeouts=False)[0]
         TIMES[(name, d)] = time.time() - t0
         if r["exit"] != "normal" or len(r["steps"]) < 2:
             out.append((name, d, "crash:" + str(r["exit"]) + "@%.2f" % TIMES[(name, d)], steps))
